@@ -153,7 +153,11 @@ func Assign(left, right value.Value) error {
 			lv.IsNotSet = false
 		case value.IpType: // STRING = IP
 			rv := value.Unwrap[*value.IP](right)
-			lv.Value = rv.Value.String()
+			if rv.IsNotSet {
+				lv.Value = ""
+			} else {
+				lv.Value = rv.Value.String()
+			}
 			lv.IsNotSet = rv.IsNotSet
 		case value.RegexType: // STRING = REGEX
 			rv := value.Unwrap[*value.Regex](right)
